@@ -152,39 +152,51 @@ def digits : Bytes → Bytes × Bytes
   | [] => ([], [])
   | b :: r => if isDigit b then ((b :: (digits r).1), (digits r).2) else ([], b :: r)
 
+/-- `[ "-" ]` -/
+def optMinus : Bytes → Bytes × Bytes
+  | 45 :: r => ([45], r)
+  | s => ([], s)
+
+/-- `[ "-" / "+" ]` -/
+def optSign : Bytes → Bytes × Bytes
+  | 43 :: r => ([43], r)
+  | 45 :: r => ([45], r)
+  | s => ([], s)
+
+/-- `int = "0" / ( digit1-9 *DIGIT )` -/
+def intPart (s : Bytes) : Option (Bytes × Bytes) :=
+  let d := digits s
+  if d.1.isEmpty || (d.1.head? == some 48 && d.1.length > 1) then none else some d
+
+/-- `[ frac ]`, `frac = "." 1*DIGIT` -/
+def fracPart : Bytes → Option (Bytes × Bytes)
+  | 46 :: r =>
+    let d := digits r
+    if d.1.isEmpty then none else some (46 :: d.1, d.2)
+  | s => some ([], s)
+
+/-- `[ exp ]`, `exp = ( "e" / "E" ) [ "-" / "+" ] 1*DIGIT` -/
+def expPart : Bytes → Option (Bytes × Bytes)
+  | [] => some ([], [])
+  | e :: r =>
+    if e == 101 || e == 69 then
+      let sg := optSign r
+      let d := digits sg.2
+      if d.1.isEmpty then none else some (e :: sg.1 ++ d.1, d.2)
+    else some ([], e :: r)
+
 /-- `[ "-" ] int [ frac ] [ exp ]`: the literal and the rest -/
 def number (s : Bytes) : Option (Bytes × Bytes) :=
-  let (sg, s1) := match s with
-    | 45 :: r => (([45] : Bytes), r)
-    | _ => (([] : Bytes), s)
-  let (ds, s2) := digits s1
-  -- int = "0" / digit1-9 *DIGIT
-  if ds.isEmpty || (ds.head? == some 48 && ds.length > 1) then none
-  else
-    let fr : Option (Bytes × Bytes) :=
-      match s2 with
-      | 46 :: r =>
-        let (fs, r') := digits r
-        if fs.isEmpty then none else some (46 :: fs, r')
-      | _ => some ([], s2)
-    match fr with
+  let sg := optMinus s
+  match intPart sg.2 with
+  | none => none
+  | some (ds, s2) =>
+    match fracPart s2 with
     | none => none
-    | some (frac, s3) =>
-      let ex : Option (Bytes × Bytes) :=
-        match s3 with
-        | e :: r =>
-          if e == 101 || e == 69 then
-            let (sgn, r1) := match r with
-              | 43 :: t => (([43] : Bytes), t)
-              | 45 :: t => (([45] : Bytes), t)
-              | _ => (([] : Bytes), r)
-            let (es, r2) := digits r1
-            if es.isEmpty then none else some (e :: sgn ++ es, r2)
-          else some ([], s3)
-        | [] => some ([], [])
-      match ex with
+    | some (fr, s3) =>
+      match expPart s3 with
       | none => none
-      | some (exp, s4) => some (sg ++ ds ++ frac ++ exp, s4)
+      | some (ex, s4) => some (sg.1 ++ ds ++ fr ++ ex, s4)
 
 /-- the value of `1*DIGIT` -/
 def digitsVal (ds : Bytes) : Nat := ds.foldl (fun acc d => acc * 10 + (d.toNat - 48)) 0
